@@ -336,6 +336,11 @@ def replay_valid(p):
         elif what == 'povm':
             Es = R.rand_povm(p['d'], p['nt'], seed=seed)
             bad = np.abs(Es.sum(axis=0) - np.eye(p['d'])).max() > 1e-8 or any(np.linalg.eigvalsh((E_ + E_.conj().T) / 2).min() < -1e-8 or np.abs(E_ - E_.conj().T).max() > 1e-8 for E_ in Es)
+        elif what == 'choi':
+            C = R.rand_choi_op(p['din'], p['dout'], p['rank'], seed=seed)
+            din, dout = p['din'], p['dout']
+            tro = np.einsum(C.reshape(din, dout, din, dout), [0, 1, 2, 1], [0, 2])
+            bad = np.abs(tro - np.eye(din)).max() > 1e-8 or np.abs(C - C.conj().T).max() > 1e-8 or np.linalg.eigvalsh((C + C.conj().T) / 2).min() < -1e-8
         elif what == 'kraus':
             K = R.rand_kraus_op(p['nt'], p['din'], p['dout'], seed=seed)
             bad = K.shape != (p['nt'], p['dout'], p['din']) or np.abs(sum(x.conj().T @ x for x in K) - np.eye(p['din'])).max() > 1e-8
@@ -702,6 +707,69 @@ def run(chk):
             chk.add('lemma K4 [2x2]: E invertible  =>  inv(E) (E E^dag) inv(E)^dag == I (adjugate inverse; with the eigh contract A = (V sqrt D)(V sqrt D)^dag this is W^dag A W = I)',
                     [c for k_, c in cg.side if k_ == 'div'] + list(cg.facts), ir.band_all(eqm(mmul(Eig, mmul(Eg, dagm(Eg)), dagm(Eig)), eye_(2))), key='matrix lemma', replay=rp)
     kraus_block(2, 2, 2)
+    # rand_choi_op(2, 2, rank): C = (T (x) I) G G^dag (T (x) I) with T = V D V^dag from eigh(Tr_out G G^dag): Gram (PSD) and Tr_out C = T (Tr_out GG^dag) T = I
+    def choi_block(din, dout, rank):
+        chk.configurations += 1
+        lam = [S.sc_var(f'chl{din}{dout}{rank}_{j}') for j in range(din)]
+        V = H.cx_array(f'chv{din}{dout}{rank}_', (din, din))
+        cap, mm_log = [], []
+
+        def eigh_stub(x):
+            cap.append(x)
+            return A.sym_array(np.array(lam, dtype=object), np.float64), V
+
+        def hook(r, a_, b_):
+            mm_log.append((r, a_, b_))
+            return r
+        fac2 = with_linalg({'eigh': eigh_stub})
+        pre = [(l_ > 0).n for l_ in lam]
+
+        def once():
+            _FRESH[0] = 0
+            TOTAL[0] = 0
+            del cap[:], mm_log[:]
+            A.MATMUL_HOOK[0] = hook
+            try:
+                return R.rand_choi_op(din, dout, rank, seed=SymStream(f'v<choi{din}{dout}{rank}>'))
+            finally:
+                A.MATMUL_HOOK[0] = None
+        try:
+            paths, st = H.run_paths(once, pre, np_facade=fac2, extra_globals=eg, feas_timeout_ms=1000, max_paths=8)
+        except S.EngineError as e:
+            chk.engine_error(f'rand_choi_op({din},{dout},{rank})', e)
+            return
+        chk.add_path_stats(st)
+        rp = ('c10v', {'what': 'choi', 'din': din, 'dout': dout, 'rank': rank})
+        N0 = din * dout
+        for pi, path in enumerate(paths):
+            if path.status != 'return':
+                chk.add(f'rand_choi_op({din},{dout},{rank}) raises {type(path.value).__name__}: {path.value}', pre + path.pc + path.facts, ir.FALSE, key='rand_choi_op raises', replay=rp)
+                continue
+            with path.resume():
+                C = A.plain(path.value)
+                Gm = np.asarray(mm_log[0][1], dtype=object)            # tmp0 (N0, rank)
+                GG = np.asarray(mm_log[0][0], dtype=object)            # tmp0 tmp0^dag
+                tr_out = np.array([[sum((S.as_sc(GG[a * dout + b, c * dout + b]) for b in range(dout)), SC(ir.ZERO)) for c in range(din)] for a in range(din)], dtype=object)
+                dm = [S.as_sc(1) / S.as_sc(0).maximum(lam[i]).sqrt() for i in range(din)]
+                Dm = np.array([[dm[i] if i == j else SC(ir.ZERO) for j in range(din)] for i in range(din)], dtype=object)
+                Vp = A.plain(V)
+                Tm = mmul(Vp, Dm, dagm(Vp))
+                TI = np.kron(Tm, eye_(dout))
+                base = pre + path.pc + path.facts + [c for k_, c in path.side]
+                ok = C.shape == (N0, N0) and len(cap) == 1 and Gm.shape == (N0, rank)
+                chk.add(f'rand_choi_op({din},{dout},{rank}) C1: the matrix handed to eigh is Tr_out(G G^dag)', base, ir.band_all(eqm(A.plain(cap[0]), tr_out)) if ok else ir.FALSE, key='rand_choi_op invalid', replay=rp)
+                chk.add(f'rand_choi_op({din},{dout},{rank}) C2: C == (T (x) I) G G^dag (T (x) I) with T = V D V^dag, D_i^2 lambda_i == 1', base,
+                        ir.band_all(eqm(C, mmul(TI, GG, TI)) + [H.eq_sc(dm[i] * dm[i] * lam[i], 1) for i in range(din)]) if ok else ir.FALSE, key='rand_choi_op invalid', replay=rp)
+                chk.add(f'rand_choi_op({din},{dout},{rank}) C3: C == ((T (x) I) G)((T (x) I) G)^dag (Gram matrix, hence positive semidefinite)', base,
+                        ir.band_all(eqm(C, mmul(mmul(TI, Gm), dagm(mmul(TI, Gm))))) if ok else ir.FALSE, key='rand_choi_op invalid', replay=rp)
+        # generic: Tr_out[(T (x) I) X (T (x) I)] == T (Tr_out X) T   (then lemmas L1, L2a, L2b give I)
+        Xg = A.plain(H.cx_array(f'chX{din}{dout}_', (N0, N0)))
+        Tg = A.plain(H.cx_array(f'chT{din}{dout}_', (din, din)))
+        TIg = np.kron(Tg, eye_(dout))
+        Yg = mmul(TIg, Xg, TIg)
+        tr = lambda Mx: np.array([[sum((S.as_sc(Mx[a * dout + b, c * dout + b]) for b in range(dout)), SC(ir.ZERO)) for c in range(din)] for a in range(din)], dtype=object)
+        chk.add(f'lemma C4 [{din}x{dout}]: Tr_out[(T (x) I) X (T (x) I)] == T (Tr_out X) T (identity)', [], ir.band_all(eqm(tr(Yg), mmul(Tg, tr(Xg), Tg))), key='matrix lemma', replay=rp)
+    choi_block(2, 2, 2)
     unitary_block(2)
     if not quick:
         unitary_block(3)
